@@ -18,7 +18,8 @@ ID = "C09"
 RULE = (
     "real kernels (RW, MH, IWLS, HMC, NUTS, user Gibbs, finite-discrete Gibbs, tau2 Gibbs) in random orders over "
     "disjoint blocks of a Liesel model (regression coefficients, Exp-transformed variance, degenerate-MVN smooth with "
-    "its tau2, discrete indicator; weak intermediates) and of a dict model; step sizes giving acceptances and "
+    "its tau2, discrete indicator; weak intermediates; derived nodes that feed no distribution; optionally a position key "
+    "that collides with another variable's name; user kernel identifiers in non-alphabetical order) and of a dict model; step sizes giving acceptances and "
     "rejections; adaptation, burn-in and posterior epochs; 2 chains. non-trivial = >= 2 kernels and every MH-type "
     "kernel both accepted and rejected; distinct by (kernel order, kinds, step sizes)"
 )
